@@ -83,6 +83,13 @@ class C01(Prop):
                 yield {"k": "mul", "a": ops[2 * t], "b": ops[2 * t + 1]}
             yield {"k": "table", "as": ops[:8], "bs": ops[8:20]}
             yield {"k": "table", "as": ops[:10], "bs": ops[:10], "pkg": "py"}
+        # element types of the user's arrays: bits as uint8 / int8 / int32 / uint64 / float64, phases likewise.  A refusal
+        # (exception) is accepted; a product that is returned must be the product
+        for n in (1, 2):
+            keys2 = sorted({(tuple(e[2]), tuple(e[3])) for e in self.edges[n]})
+            for j, (a, b) in enumerate(keys2 if n == 1 else keys2[::3]):
+                for gdt, pdt in (("uint8", "int64"), ("int8", "int32"), ("uint64", "uint8"), ("float64", "int64"), ("uint8", "uint8"), ("int32", "float64"))[j % 2::2]:
+                    yield {"k": "mul", "a": list(a), "b": list(b), "dt": [gdt, pdt], "pkg": "py"}
         # live operands: the same Pauli object is multiplied, changed in place (rotate_by), and multiplied again
         for t, c in enumerate(self.chains[:60]):
             yield {"k": "live", "start": c["start"], "steps": c["steps"][:10]}
@@ -90,7 +97,8 @@ class C01(Prop):
     def execute(self, scn, be):
         k = scn["k"]
         if k == "mul":
-            return [self._mul(scn, be)]
+            r = self._mul(scn, be)
+            return [r] if r is not None else []
         if k == "table":
             return self._table(scn, be)
         if k == "chain":
@@ -103,6 +111,21 @@ class C01(Prop):
         rec = {"op": "mul", "a": scn["a"], "b": scn["b"]}
         try:
             A, B = be.pauli(scn["a"]), be.pauli(scn["b"])
+            if scn.get("dt"):
+                import numpy
+                gdt, pdt = scn["dt"]
+                rec["dt"] = scn["dt"]
+                try:
+                    A = be.paulialg.Pauli(A.g.astype(getattr(numpy, gdt)), getattr(numpy, pdt)(A.p))
+                    B = be.paulialg.Pauli(B.g.astype(getattr(numpy, gdt)), getattr(numpy, pdt)(B.p))
+                    rec["ret"] = be.p_pauli(A @ B)
+                    rec["acq"] = be.p_ints([be.utils.acq(A.g, B.g)])[0]
+                    rec["ipow"] = be.p_ints([be.utils.ipow(A.g, B.g)])[0] % 4
+                except Exception:
+                    return None            # refused: nothing to judge
+                return rec
+            if scn["a"] == scn["b"] and scn.get("same", True):
+                B = A                      # squares are taken of one and the same object
             rec["ret"] = be.p_pauli(A @ B)
             v = be.p_ints([be.utils.acq(A.g, B.g)])[0]
             rec["acq"] = v
